@@ -21,11 +21,11 @@ import (
 // ---------------------------------------------------------------- spec
 
 type C13Op struct {
-	K string `json:"k"`           // newrow | rowadd | addrow | append | items | sep | headers | reg | hcol
+	K string `json:"k"`           // newrow | rowadd | addrow | append | items | sep | headers | reg | hcol | stamp | rowaddfrom
 	R int    `json:"r,omitempty"` // row id (rowadd, addrow; reg on row / cell)
 	N int    `json:"n,omitempty"` // number of items (items, headers); column number (reg on column, hcol); cell column (reg on cell)
 	// reg only
-	Owner  string `json:"owner,omitempty"`  // table | column | row | cell
+	Owner  string `json:"owner,omitempty"`  // table | column | row | cell | stamp (a local Cell variable, N = its number)
 	Time   string `json:"time,omitempty"`   // add | pre | render | post
 	Target string `json:"target,omitempty"` // itself | cell | row
 	CB     int    `json:"cb,omitempty"`
@@ -42,6 +42,21 @@ type C13Op struct {
 	// reg on a column only: 1+index of the earlier hcol operation whose handle
 	// (t.Column(n) taken back then) is passed as the owner; 0 = t.Column(n) now
 	H int `json:"h,omitempty"`
+	// render-time reg only: the callback panics (after logging and setting its
+	// property) when invoked in render pass number Panic (1-based); the harness
+	// recovers, that pass is void, the property is judged on the other passes
+	Panic int `json:"panic,omitempty"`
+	// rowaddfrom: rows[R].Add(v) where v is a Cell VALUE that already has a
+	// history: From = "stamp" (the local Cell variable #S, possibly with
+	// callbacks registered upon it), "cell" (the value of cell (SR,SC) taken out
+	// of the table through CellAt / Cells() / Headers()), "foreign" (the value of
+	// cell SC of a row of another table)
+	From string `json:"from,omitempty"`
+	S    int    `json:"s,omitempty"`
+	SR   int    `json:"sr,omitempty"`
+	SC   int    `json:"sc,omitempty"`
+
+	origin int // index of the operation that made this registration (set by the simulator)
 }
 
 type C13Spec struct {
@@ -70,9 +85,21 @@ func (o C13Op) String() string {
 		return fmt.Sprintf("%s(%d)", o.K, o.N)
 	case "hcol":
 		return fmt.Sprintf("h:=column%d", o.N)
+	case "stamp":
+		return "s:=NewCell"
+	case "rowaddfrom":
+		switch o.From {
+		case "stamp":
+			return fmt.Sprintf("rowadd(%d,value of stamp%d)", o.R, o.S)
+		case "cell":
+			return fmt.Sprintf("rowadd(%d,value of cell%d.%d)", o.R, o.SR, o.SC)
+		}
+		return fmt.Sprintf("rowadd(%d,value of cell %d of another table)", o.R, o.SC)
 	case "reg":
 		ow := o.Owner
 		switch o.Owner {
+		case "stamp":
+			ow = fmt.Sprintf("stamp%d", o.N)
 		case "column":
 			ow = fmt.Sprintf("column%d", o.N)
 		case "row":
@@ -89,6 +116,9 @@ func (o C13Op) String() string {
 		}
 		if o.Fail {
 			extra += ",fails"
+		}
+		if o.Panic > 0 {
+			extra += fmt.Sprintf(",panics in pass %d", o.Panic)
 		}
 		return fmt.Sprintf("reg#%d(%s,%s,%s%s)", o.CB, ow, o.Time, o.Target, extra)
 	}
@@ -162,6 +192,29 @@ type c13Sim struct {
 	regerr     []int
 	lateAttach bool
 	handles    []int // column number of each hcol so far
+
+	stamps       [][]C13Op // registrations made upon each local Cell variable
+	opIndex      int
+	coq          []string // the history in the model's operation language
+	coqRegOrigin []int    // for each ORegister of coq: the operation that made the registration
+}
+
+// ownRegs: the accepted registrations a cell value carries
+func (s *c13Sim) ownRegs(o C13Op) []C13Op {
+	var out []C13Op
+	switch o.From {
+	case "stamp":
+		if o.S >= 0 && o.S < len(s.stamps) {
+			out = append(out, s.stamps[o.S]...)
+		}
+	case "cell":
+		for _, q := range s.regs {
+			if q.Owner == "cell" && q.R == o.SR && q.N == o.SC {
+				out = append(out, q)
+			}
+		}
+	}
+	return out
 }
 
 func newC13Sim() *c13Sim { return &c13Sim{header: -1} }
@@ -206,12 +259,50 @@ func (s *c13Sim) wf(o C13Op) bool {
 	case "addrow":
 		return o.R >= 0 && o.R < len(s.rows) && !s.rows[o.R].attached
 	case "reg":
+		if o.Panic < 0 || (o.Panic > 0 && o.Time == "add") {
+			return false
+		}
+		if o.Owner == "stamp" {
+			return o.N >= 0 && o.N < len(s.stamps) && o.H == 0 && (o.Target == "itself" || o.Target == "cell")
+		}
 		if o.H != 0 && (o.Owner != "column" || o.H < 0 || o.H > len(s.handles) || s.handles[o.H-1] != o.N) {
 			return false
 		}
 		return s.ownerExists(o)
 	case "hcol":
 		return o.N >= 0 && o.N <= s.ncols
+	case "rowaddfrom":
+		if o.R < 0 || o.R >= len(s.rows) || s.replacedHeader(o.R) {
+			return false
+		}
+		switch o.From {
+		case "stamp":
+			if o.S < 0 || o.S >= len(s.stamps) {
+				return false
+			}
+		case "cell":
+			if s.replacedHeader(o.SR) || !s.ownerExists(C13Op{Owner: "cell", R: o.SR, N: o.SC}) {
+				return false
+			}
+		case "foreign":
+			if o.SC < 1 || o.SC > 3 {
+				return false
+			}
+		default:
+			return false
+		}
+		// Known limit of the unchanged library, kept out of the generated
+		// domain and reported separately: append leaves spare capacity in a
+		// callback list of 3 (5-7, ...) entries, so two by-value copies of such
+		// a cell share the next slot.
+		per := map[string]int{}
+		for _, q := range s.ownRegs(o) {
+			per[q.Time]++
+			if per[q.Time] > 2 {
+				return false
+			}
+		}
+		return true
 	case "items", "headers":
 		return o.N >= 0
 	}
@@ -276,27 +367,45 @@ func (s *c13Sim) addCells(id, from, to int) {
 
 func (s *c13Sim) step(o C13Op) {
 	id := len(s.rows)
+	idx := s.opIndex
+	s.opIndex++
 	switch o.K {
-	case "newrow":
-		s.rows = append(s.rows, c13SimRow{})
-	case "rowadd":
+	case "hcol", "stamp", "rowaddfrom":
+	case "reg":
+		if o.Owner != "stamp" {
+			s.coq = append(s.coq, o.Coq())
+			s.coqRegOrigin = append(s.coqRegOrigin, idx)
+		}
+	default:
+		s.coq = append(s.coq, o.Coq())
+	}
+	switch o.K {
+	case "stamp":
+		s.stamps = append(s.stamps, nil)
+	case "rowaddfrom":
+		// what it means for a Cell to be a value: the copy is a new cell of the
+		// row that starts with the callbacks the value carried
+		src := s.ownRegs(o)
 		r := &s.rows[o.R]
+		s.coq = append(s.coq, C13Op{K: "rowadd", R: o.R}.Coq())
 		if r.sep {
 			return
 		}
-		r.cells++
-		s.addCells(o.R, r.cells, r.cells)
-		if r.attached {
-			if r.late == nil {
-				r.late = map[int]bool{}
-			}
-			r.late[r.cells] = true
-			s.lateAttach = true
-			if r.cells > s.ncols {
-				s.ncols = r.cells
-			}
-			s.joinCells(o.R, r.cells, r.cells)
+		s.step1RowAdd(o.R)
+		for _, q := range src {
+			q.Owner, q.R, q.N, q.H = "cell", o.R, r.cells, 0
+			s.regs = append(s.regs, q)
+			s.regerr = append(s.regerr, 0)
+			s.coq = append(s.coq, q.Coq())
+			s.coqRegOrigin = append(s.coqRegOrigin, q.origin)
 		}
+	case "newrow":
+		s.rows = append(s.rows, c13SimRow{})
+	case "rowadd":
+		if s.rows[o.R].sep {
+			return
+		}
+		s.step1RowAdd(o.R)
 	case "addrow":
 		r := &s.rows[o.R]
 		r.attached = true
@@ -334,12 +443,34 @@ func (s *c13Sim) step(o C13Op) {
 	case "hcol":
 		s.handles = append(s.handles, o.N)
 	case "reg":
+		o.origin = idx
+		if o.Owner == "stamp" {
+			s.stamps[o.N] = append(s.stamps[o.N], o)
+			return
+		}
 		if c13Accepts(o.Owner, o.Target) {
 			s.regs = append(s.regs, o)
 			s.regerr = append(s.regerr, 0)
 		} else {
 			s.regerr = append(s.regerr, 1)
 		}
+	}
+}
+
+func (s *c13Sim) step1RowAdd(rid int) {
+	r := &s.rows[rid]
+	r.cells++
+	s.addCells(rid, r.cells, r.cells)
+	if r.attached {
+		if r.late == nil {
+			r.late = map[int]bool{}
+		}
+		r.late[r.cells] = true
+		s.lateAttach = true
+		if r.cells > s.ncols {
+			s.ncols = r.cells
+		}
+		s.joinCells(rid, r.cells, r.cells)
 	}
 }
 
@@ -410,7 +541,16 @@ type c13Env struct {
 	handles []c13Handle                      // column handles taken by hcol operations
 	objs    map[int]tabular.PropertyCallback // callback object of each id
 	twins   map[*c13Twin]c13TwinInfo
+
+	pass      int                      // render pass under way (1-based)
+	stamps    []*tabular.Cell          // local Cell variables
+	other     *tabular.ATable          // another table, a source of cell values
+	inherited map[[2]int]map[int]bool  // properties a cell had already when its value was added
+	seenCells map[[2]int]*tabular.Cell // the object each cell-target invocation received
 }
+
+// c13Boom is what a panicking recorder panics with
+type c13Boom struct{ id int }
 
 type c13Handle struct {
 	n int
@@ -418,8 +558,14 @@ type c13Handle struct {
 }
 
 // invoked: what every recording callback does
-func (e *c13Env) invoked(id int, fail bool, o tabular.PropertyOwner) error {
+func (e *c13Env) invoked(id int, fail bool, boom int, o tabular.PropertyOwner) error {
 	x := e.identify(o)
+	if p, ok := o.(*tabular.Cell); ok && x.K == "cell" {
+		if e.seenCells == nil {
+			e.seenCells = map[[2]int]*tabular.Cell{}
+		}
+		e.seenCells[[2]int{x.A, x.B}] = p
+	}
 	ev := c13Ev{id, x}
 	if e.render {
 		e.rndLog = append(e.rndLog, ev)
@@ -427,6 +573,9 @@ func (e *c13Env) invoked(id int, fail bool, o tabular.PropertyOwner) error {
 		e.addLog = append(e.addLog, ev)
 	}
 	o.SetProperty(c13Key(id), id)
+	if e.render && boom > 0 && boom == e.pass {
+		panic(c13Boom{id})
+	}
 	if fail {
 		return fmt.Errorf("recording callback #%d fails", id)
 	}
@@ -436,11 +585,12 @@ func (e *c13Env) invoked(id int, fail bool, o tabular.PropertyOwner) error {
 type c13Recorder struct {
 	id   int
 	fail bool
+	boom int
 	env  *c13Env
 }
 
 func (c *c13Recorder) UpdateProperties(o tabular.PropertyOwner) error {
-	return c.env.invoked(c.id, c.fail, o)
+	return c.env.invoked(c.id, c.fail, c.boom, o)
 }
 
 // c13Twin: all twins of a run have equal contents (== on the pointees and
@@ -450,22 +600,24 @@ type c13Twin struct{ env *c13Env }
 type c13TwinInfo struct {
 	id   int
 	fail bool
+	boom int
 }
 
 func (c *c13Twin) UpdateProperties(o tabular.PropertyOwner) error {
 	in := c.env.twins[c]
-	return c.env.invoked(in.id, in.fail, o)
+	return c.env.invoked(in.id, in.fail, in.boom, o)
 }
 
 // c13Val: a callback that is a plain value
 type c13Val struct {
 	id   int
 	fail bool
+	boom int
 	env  *c13Env
 }
 
 func (c c13Val) UpdateProperties(o tabular.PropertyOwner) error {
-	return c.env.invoked(c.id, c.fail, o)
+	return c.env.invoked(c.id, c.fail, c.boom, o)
 }
 
 // callback returns the object for a registration: the same object again when
@@ -478,12 +630,12 @@ func (e *c13Env) callback(o C13Op) tabular.PropertyCallback {
 	switch o.Kind {
 	case "twin":
 		tw := &c13Twin{e}
-		e.twins[tw] = c13TwinInfo{o.CB, o.Fail}
+		e.twins[tw] = c13TwinInfo{o.CB, o.Fail, o.Panic}
 		cb = tw
 	case "val":
-		cb = c13Val{o.CB, o.Fail, e}
+		cb = c13Val{o.CB, o.Fail, o.Panic, e}
 	default:
-		cb = &c13Recorder{o.CB, o.Fail, e}
+		cb = &c13Recorder{o.CB, o.Fail, o.Panic, e}
 	}
 	e.objs[o.CB] = cb
 	return cb
@@ -658,13 +810,18 @@ type c13Obs struct {
 	History string   `json:"history"`
 	Snippet string   `json:"go,omitempty"`
 
+	Aborted      []string `json:"events_of_passes_aborted_by_a_panicking_callback,omitempty"`
+	NormalPasses int      `json:"passes_completed"`
+
 	add, rnd []c13Ev
 	props    []c13Ev // (key, target)
+	regCode  map[int]int
 }
 
 func c13Exec(sp C13Spec) (ob c13Obs) {
-	env := &c13Env{t: tabular.New(), hdrID: -1, objs: map[int]tabular.PropertyCallback{}, twins: map[*c13Twin]c13TwinInfo{}}
+	env := &c13Env{t: tabular.New(), hdrID: -1, objs: map[int]tabular.PropertyCallback{}, twins: map[*c13Twin]c13TwinInfo{}, inherited: map[[2]int]map[int]bool{}}
 	ob.Kind = "ok"
+	ob.regCode = map[int]int{}
 	defer func() {
 		if r := recover(); r != nil {
 			ob.Kind = "panic"
@@ -682,7 +839,7 @@ func c13Exec(sp C13Spec) (ob c13Obs) {
 			if o.allocates() {
 				isHdr = append(isHdr, o.K == "headers")
 			}
-			if (o.K == "rowadd" || (o.K == "reg" && o.Owner == "row")) && o.R >= 0 && o.R < len(isHdr) && isHdr[o.R] {
+			if (o.K == "rowadd" || o.K == "rowaddfrom" || (o.K == "reg" && o.Owner == "row")) && o.R >= 0 && o.R < len(isHdr) && isHdr[o.R] {
 				need = true
 			}
 		}
@@ -696,8 +853,48 @@ func c13Exec(sp C13Spec) (ob c13Obs) {
 		return len(env.rows) - 1
 	}
 	cids := []int{}
-	for _, o := range sp.Ops {
+	for opi, o := range sp.Ops {
 		switch o.K {
+		case "stamp":
+			c := tabular.NewCell("s")
+			env.stamps = append(env.stamps, &c)
+		case "rowaddfrom":
+			dest := env.rowPtr(o.R)
+			if dest == nil {
+				panic("harness: row pointer unknown")
+			}
+			var v tabular.Cell
+			switch o.From {
+			case "stamp":
+				v = *env.stamps[o.S]
+			case "cell":
+				p := env.cellPtr(o.SR, o.SC)
+				if p == nil {
+					panic("harness: source cell not reachable")
+				}
+				v = *p
+			default:
+				if env.other == nil {
+					env.other = tabular.New()
+					env.other.AddRowItems("f", "f", "f")
+					env.other.InvokeRenderCallbacks()
+				}
+				p, err := env.other.CellAt(tabular.CellLocation{Row: 1, Column: o.SC})
+				if err != nil {
+					panic("harness: foreign cell")
+				}
+				v = *p
+			}
+			if dest.Cells() != nil {
+				inh := map[int]bool{}
+				for _, id := range cids {
+					if v.GetProperty(c13Key(id)) != nil {
+						inh[id] = true
+					}
+				}
+				env.inherited[[2]int{o.R, len(dest.Cells()) + 1}] = inh
+			}
+			dest.Add(v)
 		case "newrow":
 			id := alloc()
 			env.rows[id] = tabular.NewRow()
@@ -748,6 +945,8 @@ func c13Exec(sp C13Spec) (ob c13Obs) {
 			switch o.Owner {
 			case "table":
 				owner = t
+			case "stamp":
+				owner = env.stamps[o.N]
 			case "column":
 				if o.H > 0 {
 					owner = env.handles[o.H-1].h
@@ -764,7 +963,7 @@ func c13Exec(sp C13Spec) (ob c13Obs) {
 				}
 			}
 			if owner == nil {
-				ob.Reg = append(ob.Reg, 2)
+				ob.regCode[opi] = 2
 				continue
 			}
 			var err error
@@ -787,24 +986,43 @@ func c13Exec(sp C13Spec) (ob c13Obs) {
 				err = t.RegisterPropertyCallback(owner, tabular.CB_AT_RENDER_POSTCELL, tg, rec)
 			}
 			if err != nil {
-				ob.Reg = append(ob.Reg, 1)
+				ob.regCode[opi] = 1
 			} else {
-				ob.Reg = append(ob.Reg, 0)
+				ob.regCode[opi] = 0
 			}
 		}
 	}
 
 	env.render = true
 	for i := 0; i < sp.Passes; i++ {
-		if sp.Via == "csv" {
-			// error (no columns), or even a panic further down in the renderer
-			// (C05/C09's subject): the callbacks ran first
-			func() {
-				defer func() { recover() }()
-				csv.Render(t)
+		env.pass = i + 1
+		before := len(env.rndLog)
+		aborted := false
+		func() {
+			defer func() {
+				if r := recover(); r != nil {
+					if _, ok := r.(c13Boom); ok {
+						aborted = true // a recording callback panicked on purpose; the caller (we) recovers
+						return
+					}
+					if sp.Via == "csv" {
+						// a panic further down in the renderer (C05/C09's subject): the callbacks ran first
+						return
+					}
+					panic(r)
+				}
 			}()
+			if sp.Via == "csv" {
+				csv.Render(t) // error (no columns) or not: the callbacks ran first
+			} else {
+				t.InvokeRenderCallbacks()
+			}
+		}()
+		if aborted {
+			ob.Aborted = append(ob.Aborted, c13Strs(env.rndLog[before:])...)
+			env.rndLog = env.rndLog[:before]
 		} else {
-			t.InvokeRenderCallbacks()
+			ob.NormalPasses++
 		}
 	}
 	env.render = false
@@ -821,6 +1039,13 @@ func c13Exec(sp C13Spec) (ob c13Obs) {
 		cids = u
 	}
 	has := func(o tabular.PropertyOwner, id int) bool { return o.GetProperty(c13Key(id)) != nil }
+	logged := map[string]bool{}
+	for _, e := range env.addLog {
+		logged[e.key()] = true
+	}
+	for _, e := range env.rndLog {
+		logged[e.key()] = true
+	}
 	for _, id := range cids {
 		if has(t, id) {
 			ob.props = append(ob.props, c13Ev{id, c13Tgt{K: "table"}})
@@ -849,8 +1074,20 @@ func c13Exec(sp C13Spec) (ob c13Obs) {
 			}
 			for c := 1; c <= len(r.Cells()); c++ {
 				if p := env.cellPtr(rid, c); p != nil && has(p, id) {
-					ob.props = append(ob.props, c13Ev{id, c13Tgt{K: "cell", A: rid, B: c}})
+					ev := c13Ev{id, c13Tgt{K: "cell", A: rid, B: c}}
+					if env.inherited[[2]int{rid, c}][id] && !logged[ev.key()] {
+						continue // the value carried this property when it was added: no callback set it here
+					}
+					ob.props = append(ob.props, ev)
 				}
+			}
+		}
+		// cells of a header row that a later AddHeaders replaced and whose row
+		// pointer the harness never learnt: no longer reachable through the
+		// table; read through the object the callbacks were handed
+		for rc, p := range env.seenCells {
+			if rc[0] != env.hdrID && rc[0] < len(env.rows) && env.rowPtr(rc[0]) == nil && has(p, id) {
+				ob.props = append(ob.props, c13Ev{id, c13Tgt{K: "cell", A: rc[0], B: rc[1]}})
 			}
 		}
 		// a header row whose pointer no callback ever received: its cells are still reachable
@@ -887,6 +1124,12 @@ func c13Sig(sp C13Spec, ob *c13Obs, sim *c13Sim, expRender []c13Ev, copyCol bool
 	if copyCol {
 		return "column-itself-callback-receives-a-copy"
 	}
+	hasBoom := false
+	for _, o := range sp.Ops {
+		if o.K == "reg" && o.Panic > 0 {
+			hasBoom = true
+		}
+	}
 	hasFail, hasHandle := false, false
 	for _, o := range sp.Ops {
 		if o.K == "hcol" {
@@ -913,10 +1156,43 @@ func c13Sig(sp C13Spec, ob *c13Obs, sim *c13Sim, expRender []c13Ev, copyCol bool
 			}
 		}
 	}
+	// cells that came into their row as a value with a history, and the cells such values were taken from
+	valueCells := map[[2]int]bool{}
+	{
+		cells := map[int]int{}
+		sep := map[int]bool{}
+		id := 0
+		for _, o := range sp.Ops {
+			switch o.K {
+			case "items", "headers":
+				cells[id] = o.N
+			case "sep":
+				sep[id] = true
+			case "rowadd":
+				if !sep[o.R] {
+					cells[o.R]++
+				}
+			case "rowaddfrom":
+				if !sep[o.R] {
+					cells[o.R]++
+					valueCells[[2]int{o.R, cells[o.R]}] = true
+					if o.From == "cell" {
+						valueCells[[2]int{o.SR, o.SC}] = true
+					}
+				}
+			}
+			if o.allocates() {
+				id++
+			}
+		}
+	}
 	classify := func(e c13Ev, what string) string {
 		r, ok := regOf[e.CB]
 		if !ok {
 			return what + ":unregistered-callback"
+		}
+		if hasBoom {
+			return what + "-invocation-in-a-pass-other-than-the-one-a-callback-panicked-in"
 		}
 		if equalInSlot[e.CB] {
 			return what + "-invocation-of-a-callback-equal-to-another-in-its-slot"
@@ -926,6 +1202,10 @@ func c13Sig(sp C13Spec, ob *c13Obs, sim *c13Sim, expRender []c13Ev, copyCol bool
 		}
 		if hasFail {
 			return what + "-invocation-in-a-history-with-a-callback-that-returns-an-error"
+		}
+		if r.origin >= 0 && r.origin < len(sp.Ops) && (sp.Ops[r.origin].Owner == "stamp" || valueCells[[2]int{r.R, r.N}] || valueCells[[2]int{e.X.A, e.X.B}]) ||
+			(e.X.K == "cell" && valueCells[[2]int{e.X.A, e.X.B}]) {
+			return what + "-invocation-involving-a-cell-added-as-a-value-with-a-history"
 		}
 		if what == "missing" {
 			if r.Owner == "table" && r.Time == "post" && c13Norm(r.Owner, r.Target) == "cell" {
@@ -996,6 +1276,7 @@ func c13Snippet(sp C13Spec) string {
 	sb.WriteString("t := tabular.New(); ")
 	id := 0
 	hcount := 0
+	scount := 0
 	for _, o := range sp.Ops {
 		switch o.K {
 		case "newrow":
@@ -1015,9 +1296,23 @@ func c13Snippet(sp C13Spec) string {
 		case "hcol":
 			fmt.Fprintf(&sb, "h%d := t.Column(%d); ", hcount, o.N)
 			hcount++
+		case "stamp":
+			fmt.Fprintf(&sb, "s%d := tabular.NewCell(\"s\"); ", scount)
+			scount++
+		case "rowaddfrom":
+			switch o.From {
+			case "stamp":
+				fmt.Fprintf(&sb, "r%d.Add(s%d); ", o.R, o.S)
+			case "cell":
+				fmt.Fprintf(&sb, "r%d.Add(r%d.Cells()[%d]); ", o.R, o.SR, o.SC-1)
+			default:
+				fmt.Fprintf(&sb, "r%d.Add(otherTable.AllRows()[0].Cells()[%d]); ", o.R, o.SC-1)
+			}
 		case "reg":
 			ow := "t"
 			switch o.Owner {
+			case "stamp":
+				ow = fmt.Sprintf("&s%d", o.N)
 			case "column":
 				ow = fmt.Sprintf("t.Column(%d)", o.N)
 				if o.H > 0 {
@@ -1041,6 +1336,9 @@ func c13Snippet(sp C13Spec) string {
 			case o.Fail:
 				rec = fmt.Sprintf("failingRec(%d)", o.CB)
 			}
+			if o.Panic > 0 {
+				rec = fmt.Sprintf("panickingInPass%d(%s)", o.Panic, rec)
+			}
 			fmt.Fprintf(&sb, "t.RegisterPropertyCallback(%s, %s, %s, %s); ", ow,
 				map[string]string{"add": "CB_AT_ADD", "pre": "CB_AT_RENDER_PRECELL", "render": "CB_AT_RENDER", "post": "CB_AT_RENDER_POSTCELL"}[o.Time],
 				map[string]string{"itself": "CB_ON_ITSELF", "cell": "CB_ON_CELL", "row": "CB_ON_ROW"}[o.Target], rec)
@@ -1053,7 +1351,7 @@ func c13Snippet(sp C13Spec) string {
 	if sp.Via == "csv" {
 		call = "csv.Render(t)"
 	}
-	fmt.Fprintf(&sb, "%d x %s  // rec(i) logs (i, object received) and sets property i on it; the same i twice = the same object twice; twins are distinct objects with equal contents; failing ones also return an error", sp.Passes, call)
+	fmt.Fprintf(&sb, "%d x %s (each under recover())  // rec(i) logs (i, object received) and sets property i on it; the same i twice = the same object twice; twins are distinct objects with equal contents; failing ones also return an error", sp.Passes, call)
 	return sb.String()
 }
 
@@ -1111,15 +1409,27 @@ func c13Run(spec json.RawMessage) CaseOut {
 	if err := json.Unmarshal(spec, &sp); err != nil {
 		panic(err)
 	}
-	var ops []string
+	// a callback id registered again is the same object again: it behaves as first described
+	{
+		first := map[int]C13Op{}
+		for i, o := range sp.Ops {
+			if o.K != "reg" {
+				continue
+			}
+			if f, ok := first[o.CB]; ok {
+				sp.Ops[i].Kind, sp.Ops[i].Fail, sp.Ops[i].Panic = f.Kind, f.Fail, f.Panic
+				if sp.Ops[i].Time == "add" {
+					sp.Ops[i].Panic = 0 // the flag only matters at render time
+				}
+			} else {
+				first[o.CB] = o
+			}
+		}
+	}
 	names := make([]string, len(sp.Ops))
 	for i, o := range sp.Ops {
-		if o.K != "hcol" { // a handle is a column number: taking one is no operation of the history
-			ops = append(ops, o.Coq())
-		}
 		names[i] = o.String()
 	}
-	input := cqPair(cqList(ops), cqNat(sp.Passes))
 	size := len(sp.Ops)*4 + sp.Passes
 	for _, o := range sp.Ops {
 		size += o.N
@@ -1128,21 +1438,59 @@ func c13Run(spec json.RawMessage) CaseOut {
 		size++
 	}
 	wf := c13WF(sp.Ops)
+	sim := newC13Sim()
+	var expRender []c13Ev
+	normalPred := 0
+	if wf {
+		for _, o := range sp.Ops {
+			sim.step(o)
+		}
+		// passes in which a panicking callback is due are void; the others must be complete
+		pass := sim.renderPass()
+		fires := map[int]bool{}
+		for _, e := range pass {
+			fires[e.CB] = true
+		}
+		anyBoom := false
+		for p := 1; p <= sp.Passes; p++ {
+			aborted := false
+			for _, q := range sim.regs {
+				if q.Panic == p && fires[q.CB] {
+					aborted = true
+				}
+			}
+			if aborted {
+				anyBoom = true
+			} else {
+				normalPred++
+				expRender = append(expRender, pass...)
+			}
+		}
+		if anyBoom && normalPred == 0 {
+			wf = false // nothing left to judge
+		}
+	}
 	if !wf {
 		// outside the quantifier (only a shrink candidate can get here): not executed
 		return CaseOut{Coq: cqPair(cqPair("[]", cqNat(0)), "(Ok (mkObs [] [] [] []))"), Desc: map[string]interface{}{"sig": "", "skipped": "history outside the property's quantifier"},
-			Size: size, Tags: []string{"not-wf"}, Key: "notwf" + input, Nontrivial: false}
-	}
-	sim := newC13Sim()
-	for _, o := range sp.Ops {
-		sim.step(o)
-	}
-	var expRender []c13Ev
-	for i := 0; i < sp.Passes; i++ {
-		expRender = append(expRender, sim.renderPass()...)
+			Size: size, Tags: []string{"not-wf"}, Key: "notwf" + string(spec), Nontrivial: false}
 	}
 
 	ob := c13Exec(sp)
+	// registration results, in the order of the model's registrations
+	ob.Reg = nil
+	for _, origin := range sim.coqRegOrigin {
+		code, ok := ob.regCode[origin]
+		if !ok {
+			code = 2
+		}
+		ob.Reg = append(ob.Reg, code)
+	}
+	passes := sp.Passes
+	if ob.Kind == "ok" {
+		passes = ob.NormalPasses
+	}
+	input := cqPair(cqList(sim.coq), cqNat(passes))
 	copyCol := false
 	for _, e := range append(append([]c13Ev{}, ob.add...), ob.rnd...) {
 		if e.X.K == "unknown" && strings.Contains(e.X.Note, "copy") {
@@ -1379,7 +1727,29 @@ func c13RandHistory(r *RNG, maxOps, maxRegs int) C13Spec {
 	n := 1 + r.Intn(maxOps)
 	for i := 0; i < n; i++ {
 		var o C13Op
-		switch k := r.Intn(13); {
+		switch k := r.Intn(15); {
+		case k == 13:
+			o = opK("stamp")
+		case k == 14:
+			if len(s.rows) == 0 {
+				continue
+			}
+			o = C13Op{K: "rowaddfrom", R: r.Intn(len(s.rows))}
+			switch r.Intn(3) {
+			case 0:
+				if len(s.stamps) == 0 {
+					continue
+				}
+				o.From, o.S = "stamp", r.Intn(len(s.stamps))
+			case 1:
+				o.From, o.SR = "cell", r.Intn(len(s.rows))
+				if s.rows[o.SR].cells == 0 {
+					continue
+				}
+				o.SC = 1 + r.Intn(s.rows[o.SR].cells)
+			default:
+				o.From, o.SC = "foreign", 1+r.Intn(3)
+			}
 		case k == 12:
 			o = C13Op{K: "hcol", N: r.Intn(s.ncols + 1)}
 		case k < 2:
@@ -1445,6 +1815,12 @@ func c13RandHistory(r *RNG, maxOps, maxRegs int) C13Spec {
 			o = c13RegOp(c, in, nreg)
 			o.Kind = pick(r, []string{"", "", "twin", "twin", "val"})
 			o.Fail = r.Pct(25)
+			if len(s.stamps) > 0 && c13Accepts("cell", c.target) && r.Pct(25) { // upon a local Cell variable
+				o.Owner, o.N, o.R = "stamp", r.Intn(len(s.stamps)), 0
+			}
+			if c.time != "add" && r.Pct(8) {
+				o.Panic = 1 + r.Intn(2)
+			}
 			if nreg > 1 && r.Pct(15) { // an earlier callback object again
 				o.CB = 1 + r.Intn(nreg-1)
 			}
@@ -1548,6 +1924,8 @@ func c13Gen(r *RNG, tier string) []json.RawMessage {
 	c13GenEqual(r, tier, add)
 	c13GenHandles(r, tier, add)
 	c13GenFailing(r, tier, add)
+	c13GenValues(r, tier, add)
+	c13GenPanics(r, tier, func(sp C13Spec) { out = append(out, mustJSON(sp)) })
 	// random histories
 	n := 400
 	if tier == "thorough" {
@@ -1557,6 +1935,159 @@ func c13Gen(r *RNG, tier string) []json.RawMessage {
 		out = append(out, mustJSON(c13RandHistory(r, 12, 4)))
 	}
 	return out
+}
+
+// Cells are values.  (a) A local Cell variable with 0-2 callbacks registered
+// upon it is added twice - to one row, to two rows, to a detached row that is
+// attached later - and further callbacks are registered on each stored copy,
+// in both orders: every copy starts with the callbacks the value carried and
+// from then on has its own.  (b) The value of a cell of the table (body or
+// header) or of another table is added at a different position - to a row of
+// the table or to a detached row attached later - with column-level cell
+// callbacks of every time on both columns involved: the new cell belongs to
+// the column it now stands in.
+func c13GenValues(r *RNG, tier string, add func([]C13Op)) {
+	cat := func(parts ...[]C13Op) []C13Op {
+		var out []C13Op
+		for _, p := range parts {
+			out = append(out, p...)
+		}
+		return out
+	}
+	from := func(dest int, kind string, a, b int) C13Op {
+		switch kind {
+		case "stamp":
+			return C13Op{K: "rowaddfrom", R: dest, From: "stamp", S: a}
+		case "cell":
+			return C13Op{K: "rowaddfrom", R: dest, From: "cell", SR: a, SC: b}
+		}
+		return C13Op{K: "rowaddfrom", R: dest, From: "foreign", SC: b}
+	}
+	cellReg := func(row, col, cb int, time, target, kind string) C13Op {
+		return C13Op{K: "reg", Owner: "cell", R: row, N: col, Time: time, Target: target, CB: cb, Kind: kind}
+	}
+	// (a)
+	times := []string{"render"}
+	if tier == "thorough" {
+		times = c13Times
+	}
+	for _, tm := range times {
+		for prior := 0; prior <= 2; prior++ {
+			for _, target := range []string{"itself", "cell"} {
+				for _, kind := range []string{"", "twin"} {
+					var pre []C13Op
+					pre = append(pre, opK("stamp"))
+					for i := 0; i < prior; i++ {
+						pre = append(pre, C13Op{K: "reg", Owner: "stamp", N: 0, Time: tm, Target: target, CB: 10 + i, Kind: kind})
+					}
+					layouts := [][]C13Op{
+						{opK("append"), from(0, "stamp", 0, 0), from(0, "stamp", 0, 0)},                                    // twice into one row: cells 0.1 0.2
+						{opK("append"), from(0, "stamp", 0, 0), opK("append"), from(1, "stamp", 0, 0)},                     // two rows: 0.1 1.1
+						{opK("newrow"), from(0, "stamp", 0, 0), opR("addrow", 0), opN("items", 1), from(1, "stamp", 0, 0)}, // detached then attached; late into another row: 0.1 1.2
+					}
+					second := [][2]int{{0, 2}, {1, 1}, {1, 2}}
+					for li, lay := range layouts {
+						c1 := cellReg(0, 1, 1, tm, target, kind)
+						c2 := cellReg(second[li][0], second[li][1], 2, tm, target, kind)
+						add(cat(pre, lay, []C13Op{c1, c2}))
+						add(cat(pre, lay, []C13Op{c2, c1}))
+						// a registration on the variable between the two adds reaches only the later copy
+						if li == 1 {
+							mid := C13Op{K: "reg", Owner: "stamp", N: 0, Time: tm, Target: target, CB: 20, Kind: kind}
+							if prior < 2 {
+								add(cat(pre, lay[:2], []C13Op{mid}, lay[2:], []C13Op{c1, c2}))
+							}
+						}
+					}
+					// the value of a stored cell that has callbacks of its own, added again
+					add(cat([]C13Op{opN("items", 1)}, []C13Op{cellReg(0, 1, 1, tm, target, kind)}, []C13Op{opK("append"), from(1, "cell", 0, 1)},
+						[]C13Op{cellReg(0, 1, 2, tm, target, kind), cellReg(1, 1, 3, tm, target, kind)}))
+				}
+			}
+		}
+	}
+	// (b)
+	for _, tm := range []string{"add", "pre", "post"} {
+		colRegs := []C13Op{
+			{K: "reg", Owner: "column", N: 1, Time: tm, Target: "cell", CB: 1},
+			{K: "reg", Owner: "column", N: 2, Time: tm, Target: "cell", CB: 2},
+		}
+		type src struct {
+			base []C13Op
+			kind string
+			a, b int
+		}
+		srcs := []src{
+			{[]C13Op{opN("items", 2)}, "cell", 0, 1},
+			{[]C13Op{opN("items", 2)}, "cell", 0, 2},
+			{[]C13Op{opN("headers", 2)}, "cell", 0, 1},
+			{[]C13Op{opN("headers", 2)}, "cell", 0, 2},
+			{[]C13Op{opN("items", 2)}, "foreign", 0, 1},
+			{[]C13Op{opN("items", 2)}, "foreign", 0, 2},
+		}
+		for _, sc := range srcs {
+			for _, shift := range []int{0, 1} { // the value lands in column 1 (shift 0) or column 2 (shift 1)
+				if sc.kind == "cell" && sc.b == 1+shift && tier != "thorough" {
+					continue // same column number: only in thorough
+				}
+				plain := []C13Op{}
+				if shift == 1 {
+					plain = []C13Op{opR("rowadd", 1)}
+				}
+				for _, regsFirst := range []bool{true, false} {
+					pre, post := colRegs, []C13Op(nil)
+					if !regsFirst {
+						pre, post = nil, colRegs
+					}
+					// into a row that is in the table
+					add(cat(sc.base, pre, []C13Op{opK("append")}, plain, []C13Op{from(1, sc.kind, sc.a, sc.b)}, post, []C13Op{opN("items", 2)}))
+					// into a detached row, attached afterwards
+					add(cat(sc.base, pre, []C13Op{opK("newrow")}, plain, []C13Op{from(1, sc.kind, sc.a, sc.b), opR("addrow", 1)}, post, []C13Op{opN("items", 2)}))
+				}
+			}
+		}
+	}
+}
+
+// A callback that panics in one render pass (the caller recovers): that pass
+// is void; every other pass, before and after, must be complete.
+func c13GenPanics(r *RNG, tier string, emit func(C13Spec)) {
+	n := 0
+	for _, shape := range c13Shapes {
+		for _, c := range c13Combos() {
+			if c.time == "add" {
+				continue
+			}
+			ins := c13Instances(shape, c.owner)
+			if tier != "thorough" && len(ins) > 2 {
+				ins = []c13Inst{ins[0], ins[len(ins)-1]}
+			}
+			for _, in := range ins {
+				o := c13RegOp(c, in, 1)
+				if !c13Fires(append(append([]C13Op{}, shape...), o)) {
+					continue
+				}
+				for _, pp := range [][2]int{{1, 2}, {2, 3}, {1, 3}} { // (panics in pass, passes)
+					if tier != "thorough" && n%3 != pp[0]+pp[1]-3 {
+						continue
+					}
+					o.Panic = pp[0]
+					o.Kind = []string{"", "twin", "val"}[n%3]
+					ops := append(append([]C13Op{}, shape...), o)
+					// a second, ordinary callback somewhere else
+					if n%2 == 1 {
+						ops = append(ops, C13Op{K: "reg", Owner: "table", Time: pick(r, []string{"pre", "render", "post"}), Target: pick(r, []string{"itself", "cell"}), CB: 2})
+					}
+					sp := C13Spec{Ops: ops, Passes: pp[1]}
+					if n%5 == 4 {
+						sp.Via = "csv"
+					}
+					emit(sp)
+				}
+				n++
+			}
+		}
+	}
 }
 
 // c13Fires: does the history expect at least one invocation (one render pass)
@@ -1763,6 +2294,15 @@ func c13DropOp(ops []C13Op, i int) []C13Op {
 			}
 		}
 	}
+	sidx := -1 // number of the dropped stamp
+	if ops[i].K == "stamp" {
+		sidx = 0
+		for _, o := range ops[:i] {
+			if o.K == "stamp" {
+				sidx++
+			}
+		}
+	}
 	hidx := -1 // index of the dropped handle
 	if ops[i].K == "hcol" {
 		hidx = 0
@@ -1777,6 +2317,24 @@ func c13DropOp(ops []C13Op, i int) []C13Op {
 		if j == i {
 			continue
 		}
+		if sidx >= 0 {
+			if o.K == "reg" && o.Owner == "stamp" {
+				if o.N == sidx {
+					continue
+				}
+				if o.N > sidx {
+					o.N--
+				}
+			}
+			if o.K == "rowaddfrom" && o.From == "stamp" {
+				if o.S == sidx {
+					continue
+				}
+				if o.S > sidx {
+					o.S--
+				}
+			}
+		}
 		if hidx >= 0 && o.K == "reg" && o.H > 0 {
 			if o.H-1 == hidx {
 				continue
@@ -1786,7 +2344,15 @@ func c13DropOp(ops []C13Op, i int) []C13Op {
 			}
 		}
 		if id >= 0 {
-			names := o.K == "rowadd" || o.K == "addrow" || (o.K == "reg" && (o.Owner == "row" || o.Owner == "cell"))
+			if o.K == "rowaddfrom" && o.From == "cell" {
+				if o.SR == id {
+					continue
+				}
+				if o.SR > id {
+					o.SR--
+				}
+			}
+			names := o.K == "rowadd" || o.K == "rowaddfrom" || o.K == "addrow" || (o.K == "reg" && (o.Owner == "row" || o.Owner == "cell"))
 			if names {
 				if o.R == id {
 					continue
@@ -1851,9 +2417,12 @@ func init() {
 			"callback objects of three kinds (pointer with own contents, pointer with contents equal to every other of its kind, plain value), two equal callbacks and the same object twice in one slot (also through the Row itself/row and Cell itself/cell aliases) on every combination that can fire; " +
 			"column handles taken while the table is narrow, the table widened to 10+ columns in four ways (wide row, wide header, cells added late to an attached row, wide detached row), column callbacks registered through the old handle before and after the growth and through a fresh handle, identities and properties compared through old handles too; " +
 			"callbacks that return an error: every firing single registration, and every failing pre-cell cell-targeted registration paired, in both orders, with every registration that fires for the same cell / its row / its column / the table; " +
-			"seeded random histories of up to 12 operations with up to 4 registrations (kinds, failures, re-registered objects, handles, rows past the column capacity); " +
-			"a case is non-trivial when at least one invocation is expected or a registration must be refused; distinct = distinct spec",
-		Exhaustive: "all 48 owner-kind x time x target combinations x every owner instance x {earliest, last} registration point on 16 shapes; equal-callback pairs on every firing combination x shape; handle scenarios 4 widening methods x {10,12} columns x columns 0..2 x 5 column combinations x 4 registration points; failing pre-cell x 24 partner registrations x 2 orders on first and last cell of every shape",
+			"cell values with a history: a local Cell variable with 0-2 callbacks registered upon it added twice (one row, two rows, detached row) with further registrations on each stored copy in both orders; the value of a table cell (body, header) or of another table's cell added at another column position, into attached and detached rows, with column cell callbacks of every time on both columns (a stored copy is a new cell of its row that starts with the callbacks the value carried: shipped to the model as Row.Add plus those registrations); " +
+			"a callback that panics in one render pass (the harness recovers): that pass is void, every other pass before and after it must be complete - every firing render-time combination x shape; " +
+			"seeded random histories of up to 12 operations with up to 4 registrations (kinds, failures, panics, re-registered objects, handles, cell values, rows past the column capacity); " +
+			"a case is non-trivial when at least one invocation is expected or a registration must be refused; distinct = distinct spec; " +
+			"excluded (a limit of the unchanged library, reported): copying a cell value that carries 3 or more callbacks in one time list",
+		Exhaustive: "all 48 owner-kind x time x target combinations x every owner instance x {earliest, last} registration point on 16 shapes; equal-callback pairs on every firing combination x shape; handle scenarios 4 widening methods x {10,12} columns x columns 0..2 x 5 column combinations x 4 registration points; failing pre-cell x 24 partner registrations x 2 orders on first and last cell of every shape; cell-value scenarios (stamp: 0-2 prior callbacks x 2 targets x 2 kinds x 3 layouts x 2 orders; moved cell: 6 sources x 2 positions x 3 times x 2 registration points x attached/detached); panicking callback on every firing render-time combination x shape",
 		Gen:        c13Gen,
 		Run:        c13Run,
 		Shrink:     c13Shrink,
